@@ -14,6 +14,10 @@ reported (judged like any other syntax error over the tokens before the characte
 Oracle (suggestions): every concrete suggested string, put after the viable prefix in the source text, must be
 shifted by the parser (failure, if any, strictly after it) and be a terminal the bare grammar expects there; when a
 grammar action rejects that probe, the bare grammar alone decides (a terminal no sentence continues with is a failure).
+Rejections raised by grammar actions (clause order / number, types of LIMIT, dotted alias ...): the statement is about every
+rejected input, so the message must carry a location too: '>' source line(s) and a caret line whose carets cover exactly
+one token of the text (or the slot just after the last one); which token is left open (the statement defines it for
+tokens "the grammar cannot accept" only).  The text parse_sql cuts from the end (';' and blanks) belongs to the source line.
 """
 import re
 from hypothesis import strategies as st
@@ -26,8 +30,9 @@ PROPERTY = 'C19'
 D = 'mindsdb'
 RULE = ('cases = texts for parse_sql(text, "mindsdb"): token edits (delete/dup/replace/insert/swap/truncate/garbage) of '
         'corpus statements and grammar derivations re-laid-out over lines with leading blanks / blank lines / comments, '
-        'text-level edits keeping the original layout (one stray quote among them), illegal characters, a token edit with an illegal character further on, statements that a grammar action rejects followed by a token they cannot go on with, every truncation of the production-pair sentences of the mindsdb grammar; judged = rejected by the syntax-error path '
-        'or the lexer; non-trivial = judged and (error token not first, or input has several lines, or a comment '
+        'text-level edits keeping the original layout (one stray quote among them), illegal characters, a token edit with an illegal character further on, statements that a grammar action rejects followed by a token they cannot go on with, every truncation of the production-pair sentences of the mindsdb grammar, statements that a grammar action rejects (per rejection site, four layouts), '
+        'trailing terminators / comments / blank lines after the text (random and a complete family), non-ASCII (wide, combining, right-to-left, astral) characters in strings, names and comments before the error; judged = rejected by the syntax-error path, '
+        'the lexer or a grammar action; non-trivial = judged and (error token not first, or input has several lines, or a comment '
         'precedes the error); distinct by text')
 ASSUMPTIONS = ['"first token the grammar cannot accept" is located by bisection over prefix parses, i.e. assumes the LR '
                'correct-prefix property of sly (a prefix of a prefix that fails at end of input does not fail at a '
@@ -38,21 +43,32 @@ ASSUMPTIONS = ['"first token the grammar cannot accept" is located by bisection 
                'which and how many context lines precede the error line is left open (each must be a source line)',
                'suggestion acceptability = the parser shifts it after the viable prefix (weak reading: the rest of the '
                'statement need not parse)',
-               'rejections raised by grammar actions, "Empty input" and internal errors are outside the property (texts '
-               'rejected at a token are inside it also when a prefix of them, taken alone, is rejected by an action: '
+               '"Empty input" (no token at all: nothing to point at) and internal errors are outside the property; '
+               'rejections raised by grammar actions are inside it ("every rejected input"), but only the presence and '
+               'the consistency of the location is demanded (source line shown, carets exactly over one token or just '
+               'after the last one): the statement says which token only for tokens the grammar cannot accept (texts '
+               'rejected at a token are judged in full also when a prefix of them, taken alone, is rejected by an action: '
                'such a prefix counts as acceptable, and a suggestion whose probe an action rejects is judged by the '
                'bare grammar alone: it is a failure only when no sentence continues the prefix with it)',
+               'the source line includes what parse_sql cuts from the end of the text (";" and blanks); trailing blanks '
+               'are not compared, a cut ";" is',
+               'columns are counted in characters (code points): tabs, wide, combining and right-to-left characters '
+               'before the token count one column each',
                'when the tokens before an illegal character are already rejected at a token, the message has to be '
                'the syntax error message of that token (the first thing the grammar cannot accept)']
 FLOORS = {'quick': {'tok': 2300, 'eof': 900, 'lex': 700, 'multi-line': 2900, 'comment-before-error': 1200,
                     'leading-blank': 1700, 'tok-after-line1': 1000, 'eof-after-line1': 450, 'lex-line3': 330,
                     'sugg-cases': 500, 'sugg-concrete-items': 1700, 'sugg:list-at-token': 100,
                     'illegal-after-syntax-error': 220, 'origin:after-action-reject': 450,
+                    'action': 800, 'terminator-on-error-line': 300, 'trailing-comment-after-eof': 100, 'non-ascii-before-error': 130,
+                    'origin:action-all': 100, 'origin:wide-all': 80, 'origin:trail-all': 600,
                     '__nontrivial__': 3000},
           'thorough': {'tok': 120000, 'eof': 40000, 'lex': 38000, 'multi-line': 145000, 'comment-before-error': 60000,
                        'leading-blank': 85000, 'tok-after-line1': 54000, 'eof-after-line1': 21000, 'lex-line3': 16000,
                        'sugg-cases': 25000, 'sugg-concrete-items': 84000, 'sugg:list-at-token': 5300,
                        'illegal-after-syntax-error': 220, 'origin:after-action-reject': 450,
+                       'action': 800, 'terminator-on-error-line': 300, 'trailing-comment-after-eof': 100, 'non-ascii-before-error': 130,
+                       'origin:action-all': 100, 'origin:wide-all': 80, 'origin:trail-all': 600,
                        '__nontrivial__': 148000}}
 N = {'quick': 1000, 'thorough': 50000}
 
@@ -75,7 +91,14 @@ ACTION_REJECTED = [
     'SELECT * FROM t a.b', 'SELECT - NULL', "SELECT -'a'", 'SELECT a.*(1)', 'SET CHARSET - NULL',
     'SELECT 1 UNION SELECT 2 LIMIT 1 WHERE a = 1', 'CREATE SKILL s USING a = 1', "CREATE CHATBOT c USING model = 'm'",
     "CREATE CHATBOT c USING database = 1, model='m'", 'SELECT * FROM t USING a.* = 1',
-    'CREATE MODEL m PREDICT a USING b.* = 1']
+    'CREATE MODEL m PREDICT a USING b.* = 1',
+    'SELECT sum(a) OVER (ORDER BY b PARTITION BY c) FROM t', 'SELECT sum(a) OVER (PARTITION BY a PARTITION BY b) FROM t',
+    'SELECT sum(a) OVER (ORDER BY a ORDER BY b) FROM t', 'SELECT a.b.f(x) FROM t', 'SELECT a.b.f(DISTINCT x) FROM t',
+    'SELECT `` FROM t', 'SELECT * FROM t AS x (a, b)', 'SELECT a FROM t LIMIT 1 OFFSET 2 OFFSET 3',
+    'SELECT a FROM t ORDER BY a GROUP BY b', 'SELECT a FROM t LIMIT 1 ORDER BY a', 'SELECT a FROM t HAVING a = 1 WHERE b = 1',
+    'SELECT a FROM (SELECT b FROM t LIMIT 1 WHERE c = 1)', 'DESCRIBE *', 'DESCRIBE MODEL *', 'SET x y',
+    'CREATE JOB j (SELECT 1) START now START now', 'CREATE JOB j (SELECT 1) EVERY 1 hour EVERY 2 hour',
+    'SELECT 1' + '0' * 400 + '.0', 'SELECT 1e999']
 # what is put after them: a token the statement cannot go on with
 AFTER_REJECTED = ['x', ')', ',', '1', "'s'", 'FROM', 'NULL', '(', '=', 'AND', '.', 'UNION SELECT 1 x']
 
@@ -103,7 +126,7 @@ def prepare(tier):
     # the grammar actions, and those of the corpus (kept when the library in fact rejects them that way)
     pool = ACTION_REJECTED + [strip(x) for x in _S['rejected']]
     _S['action_rejected'] = [x for i, x in enumerate(pool) if x not in pool[:i] and status(x)[0] == 'action']
-    _S['lexemes'] = gg.all_lexemes('lite') + ["'a\nb'", '@v', "'it''s'", "''", '@@sv', '"a\\"b"']
+    _S['lexemes'] = NON_ASCII + gg.all_lexemes('lite') + ["'a\nb'", '@v', "'it''s'", "''", '@@sv', '"a\\"b"']
 
 
 def strip(sql):
@@ -264,9 +287,8 @@ def judge(case, col):
     cfg = {'dialect': D}
     kind, msg = status(sql)
     classes = ['origin:' + origin.split(':')[0]]
-    if kind in ('ok', 'action', 'crash', 'empty'):
-        why = {'ok': 'accepted', 'action': 'rejected by a grammar action', 'crash': 'internal error (C02)',
-               'empty': 'empty input'}[kind]
+    if kind in ('ok', 'crash', 'empty'):
+        why = {'ok': 'accepted', 'crash': 'internal error (C02)', 'empty': 'empty input'}[kind]
         col.excluded(why)
         col.case(sql, False, classes + ['outside:' + kind])
         return []
@@ -274,6 +296,12 @@ def judge(case, col):
     out = []
     if kind == 'lex':
         nontrivial, cl = judge_lex(s, msg, cfg, out, sql)
+    elif kind == 'action':
+        nontrivial, cl = judge_action(s, msg, cfg, out, sql)
+        if cl is None:
+            col.excluded('no tokens')
+            col.case(sql, False, classes + ['inconclusive'])
+            return []
     else:
         nontrivial, cl = judge_syntax(s, kind, msg, cfg, out, sql, col)
         if cl is None:
@@ -293,7 +321,7 @@ def judge_lex(s, msg, cfg, out, sql):
     if p is None or p >= len(s):
         bad('lex-oracle', [], 'lexer raised but own scan found no stop position')
         return False, cl
-    lines = s.split('\n')
+    lines = sql.split('\n')         # the text as given: what parse_sql cuts from its end belongs to the line
     ls = s.rfind('\n', 0, p) + 1
     li = s.count('\n', 0, p)
     c = p - ls
@@ -304,12 +332,22 @@ def judge_lex(s, msg, cfg, out, sql):
         cl.append('comment-before-error')
     if s[:1] in ' \t\n':
         cl.append('leading-blank')
+    if ';' in lines[li][c:]  and '\n' not in s[p:] and ';' in sql[len(s):].split('\n')[0]:
+        cl.append('terminator-on-error-line')
+    if any(ord(x) > 127 for x in s[ls:p]):
+        cl.append('non-ascii-before-error')
     feats = ['multi-line' if multi else 'one-line', 'error-on-first-line' if li == 0 else 'error-on-later-line']
     # the tokens before the illegal character: when the parser cannot extend them (their text fails at a token, which
     # the bare grammar confirms), the first thing the grammar cannot accept is that token, not the character further on
     if spans:
         head = status(guard(s[:spans[-1][3]]))[0]
         kE = _S['g'].viable_prefix_len([x[0] for x in spans])
+        # cut before the character the last token can be another one (`and` before a word character is a name, at the
+        # end of the text it is the keyword: \b): then the cut text says nothing about the tokens of the full text
+        cut_spans = mutate.lex_spans(_S['lexer'], s[:spans[-1][3]])
+        if cut_spans is None or [x[0] for x in cut_spans] != [x[0] for x in spans]:
+            cl.append('cut-text-is-tokenised-differently')
+            head = None
         if head == 'tok':
             cl.append('illegal-after-syntax-error')
             bad('lex-hides-syntax-error', ['syntax-error-before-illegal-character',
@@ -324,13 +362,67 @@ def judge_lex(s, msg, cfg, out, sql):
     if len(shown) != len(m) - 2 or not shown:
         bad('lex-no-source-line', feats, 'no ">" source line for the error on line %d of %d' % (li + 1, len(lines)))
     else:
-        if shown[-1] != lines[li]:
-            bad('lex-wrong-line', feats, 'last shown line %r, source line %r' % (shown[-1], lines[li]))
+        if shown[-1].rstrip(' \t\r') != lines[li].rstrip(' \t\r'):
+            f2 = feats + (['only-terminator-missing'] if shown[-1].rstrip() == strip(lines[li]) else [])
+            bad('lex-wrong-line', f2, 'last shown line %r, source line %r' % (shown[-1], lines[li]))
         elif shown[:-1] != lines[max(0, li - len(shown) + 1):li]:
             bad('lex-context-line', feats, 'context lines %r are not the preceding source lines' % (shown[:-1],))
     if m[-1] != '-' * (c + 1) + '^':
         bad('lex-caret', feats, 'caret line %r, expected column %d' % (m[-1], c))
     return (p > 0 and (multi or bool(spans) or 'comment-before-error' in cl)), cl
+
+
+def action_class(msg):
+    """A short tag for the rejection site: the words of the message before the quoted values."""
+    head = re.split(r"[:,.(]| got\b| '|\d", msg.split('\n')[0])[0]
+    return 'msg:' + '-'.join(re.findall(r'[A-Za-z]+', head)[:5]).lower()
+
+
+def judge_action(s, msg, cfg, out, sql):
+    """A grammar action rejected the text.  Demanded: a location (">" source lines + a caret line) whose carets cover
+    exactly one token of the text or the slot just after the last one.  Which token is left open."""
+    spans = mutate.lex_spans(_S['lexer'], s)
+    if spans is None:
+        spans, _ = lex_until_error(s)
+    if not spans:
+        return False, None
+    cl = [action_class(msg)]
+    if '\n' in s:
+        cl.append('multi-line')
+    feats = [action_class(msg)]
+
+    def bad(kd, detail):
+        out.append(findings.record(kd, 'grammar-action', feats, cfg, detail + ' | message: ' + repr(msg), sql))
+
+    m = msg.split('\n')
+    ci = max((i for i, x in enumerate(m) if CARET_RE.fullmatch(x)), default=None)
+    shown = []
+    if ci is not None:
+        j = ci - 1
+        while j >= 0 and m[j].startswith('>'):
+            shown.insert(0, m[j][1:]); j -= 1
+    if not shown:
+        bad('action-no-location', 'the message shows no source line and no carets (%d tokens, %d lines)'
+            % (len(spans), s.count('\n') + 1))
+        return len(spans) > 1, cl
+    cm = CARET_RE.fullmatch(m[ci])
+    ccol, clen = len(cm.group(1)) - 1, len(cm.group(2))
+    last = shown[-1]
+    src_lines = sql.split('\n')
+    ok, ctx_ok = False, False
+    for (_, src, a, b) in spans + [('$end', ' ', spans[-1][3], spans[-1][3] + 1)]:
+        ls = s.rfind('\n', 0, a) + 1
+        li = s.count('\n', 0, a)
+        part = src.split('\n')[0]
+        if a - ls == ccol and clen == len(part) and last.rstrip(' \t\r') == src_lines[li].rstrip(' \t\r'):
+            ok = True
+            ctx_ok = ctx_ok or subsequence(shown[:-1], src_lines[:li])
+    if ok and not ctx_ok:
+        bad('action-context-line', 'shown context %r is not a sequence of earlier source lines' % (shown[:-1],))
+    if not ok:
+        bad('action-location', 'shown line %r with carets at col %d len %d: not the source line of a token of the text '
+            'with the carets exactly over it (or one caret just after the last token)' % (last, ccol, clen))
+    return len(spans) > 1, cl
 
 
 def judge_syntax(s, kind, msg, cfg, out, sql, col):
@@ -411,12 +503,21 @@ def judge_syntax(s, kind, msg, cfg, out, sql, col):
 
     # -- the shown line is the source line: either verbatim or with comments as blanks (blank-normalised)
     ls = s.rfind('\n', 0, err_pos) + 1
-    le = s.find('\n', err_pos)
-    raw_line = s[ls:] if le < 0 else s[ls:le]
-    line_ok = norm(last) in (norm(texts[gi]), norm(raw_line))
+    le = sql.find('\n', err_pos)
+    raw_line = sql[ls:] if le < 0 else sql[ls:le]
+    # what parse_sql cut from the end of the text, as far as it stands on the line of the error (';' and blanks)
+    cut = sql[len(s):].split('\n')[0] if '\n' not in s[err_pos:] else ''
+    if ';' in cut:
+        cl.append('terminator-on-error-line')
+    if any(ord(x) > 127 for x in s[ls:err_pos]):
+        cl.append('non-ascii-before-error')
+    if kind == 'eof' and COMMENT_RE.search(s[spans[-1][3]:]):
+        cl.append('trailing-comment-after-eof')
+    line_ok = norm(last) in (norm(texts[gi] + ' ' + cut), norm(raw_line))
     if not line_ok:
-        bad('line-not-reproduced', 'error_location', sorted(ltags), '%s: shown %r, source %r' % (where, norm(last),
-                                                                                             norm(texts[gi])))
+        only = ';' in cut and norm(last) in (norm(texts[gi]), norm(s[ls:]))
+        bad('line-not-reproduced', 'error_location', sorted(ltags | ({'only-terminator-missing'} if only else set())),
+            '%s: shown %r, source %r' % (where, norm(last), norm(raw_line)))
     # -- context lines are earlier source lines, in order (how many is left open)
     ctx = [norm(x) for x in shown[:-1]]
     if not (subsequence(ctx, [norm(t) for t in texts[:gi]]) or subsequence(ctx, [norm(t) for t in s[:ls].split('\n')[:-1]])):
@@ -451,7 +552,7 @@ def judge_syntax(s, kind, msg, cfg, out, sql, col):
     else:
         # what follows the caret on the shown line is what follows the last token on that line of the source: blanks
         # and comments only, possibly the beginning of a comment that goes on in the next line
-        rest_src = s[spans[-1][3]:].split('\n')[0]
+        rest_src = sql[spans[-1][3]:].split('\n')[0]
         rest_ok = mutate.WS_RE.fullmatch(last[ccol:]) or last[ccol:].strip() == rest_src.strip()
         if (clen != 1 or ccol == 0 or last[ccol - 1:ccol].strip() == '' or not rest_ok
                 or (line_ok and not before_ok)):
@@ -522,6 +623,15 @@ SEPS = [' ', ' ', ' ', '  ', '\n', '\n', '\n  ', '\n\t', ' \n', '\n\n', '\n \n  
         # characters that str.splitlines() -- but not the library's notion of a line -- treats as line ends
         ' /* a\x0cb */ ', ' /* a\x0bb */ ', ' /* a\u2028b */ ', ' /* a\x85b */ ', ' -- a\x1cb\x1dc\n', ' \r ', '\r',
         '\n/* a\x0cb */ ', ' /* a\rb */ ']
+SEPS += [' /* \u4e2d\u6587 \U0001f600 */ ', ' -- e\u0301\u0301 \u05e2\u05d1\n', '\t/* \u00e9 */\t']
+# what may follow the last token: terminators, blanks, comments (parse_sql cuts the ';' and blanks at the very end)
+TRAILS = [';', ' ;', ';  ', ' ;\n', ';;', '\t;\n\n', ' -- c', '\n-- c', ' /* c */', ' /* a\nb */', '\n\n', ' -- c\n;', '; -- c',
+          ' /* c */;', ' ; \r\n']
+NON_ASCII = ["'\u4e2d\u6587'", "'e\u0301\u0301x'", "'\u05e2\u05d1\u05e8\u05d9\u05ea'", "'\U0001f600'", '`na\u00efve`', '"\u00fcn\u00ef"',
+             "'\uff21\uff22'"]
+WIDE_HEADS = ["select '\u4e2d\u6587'", "select `e\u0301\u0301` , '\u05e2\u05d1\u05e8\u05d9\u05ea'", "select /* \U0001f600 */ a, '\U0001f600\U0001f600'",
+              "select\t'\uff21\uff22'\t,\t`\u00fc`", "select a -- \u4e2d\n , '\u4e2d'"]
+WIDE_TAILS = ['from from t', 'from t where', 'from t t2 t3', 'from t #', 'from t limit 1 limit 2', "from 'a\nb' x y"]
 LEADS = ['', '', ' ', '\n', '   ', '\t', '\n\n  ', '-- lead\n', '/* lead */', '  /* a\n b */  ', '-- a\n-- b\n  ']
 
 
@@ -630,6 +740,9 @@ def cases(draw):
             p = draw(st.sampled_from(ends))
             ch = ' ' + ch
         sql = sql[:p] + ch + sql[p:]
+    if draw(st.integers(0, 3)) == 0:
+        sql += draw(st.sampled_from(TRAILS))
+        lay += '+trail'
     return {'sql': sql, 'origin': '%s:%s:%s:%s' % (mode, src, kind, lay)}
 
 
@@ -654,6 +767,29 @@ def run_shard(col, k, nshards, tier, seed):
     for x in [strip(y) for y in _S['rejected']] + [h + ' ' + t for t in ERR_TAILS for h in ERR_HEADS]:
         for t in (' #', '\n  !', " 'x"):
             det.append({'sql': x + t, 'origin': 'illegal-after-error:all'})
+    # what follows the text: every trailer after the same-tail family, (a slice of) the rejected corpus statements and
+    # their truncations before the last token
+    heads = [h + ' ' + t for t in ERR_TAILS for h in ERR_HEADS]
+    rej = [strip(y) for y in _S['rejected']][::3 if tier == 'quick' else 1]
+    for x in heads + rej + [y[:mutate.lex_spans(_S['lexer'], y)[-1][2]] for y in rej if mutate.lex_spans(_S['lexer'], y)]:
+        for t in TRAILS:
+            det.append({'sql': x + t, 'origin': 'trail-all'})
+    # end-of-input errors with something after the last token: a slice of the corpus statements cut before their last token
+    for y in _S['texts'][3::12 if tier == 'quick' else 2]:
+        sp = mutate.lex_spans(_S['lexer'], y)
+        for t in TRAILS:
+            det.append({'sql': y[:sp[-1][2]] + t, 'origin': 'trail-all:eof'})
+    # the statements a grammar action rejects, as they are and in three layouts
+    for x in _S['action_rejected']:
+        toks = mutate.source_tokens(_S['lexer'], x)
+        for y in (x, '\n'.join(toks), '-- lead\n  ' + '\n\t'.join(toks) + ' ;', '/* a\nb */ ' + x + ' -- c'):
+            det.append({'sql': y, 'origin': 'action-all'})
+    # wide / combining / right-to-left / astral characters and tabs before the error
+    for h in WIDE_HEADS:
+        for t in WIDE_TAILS:
+            for sep in (' ', '\t', '\n', ' /* \u4e2d */ '):
+                for tr in ('', ' ;'):
+                    det.append({'sql': h + sep + t + tr, 'origin': 'wide-all'})
     for i, c in enumerate(det):
         if i % nshards == k:
             for rec in judge(c, col):
@@ -678,6 +814,11 @@ def run_shard(col, k, nshards, tier, seed):
             for rec in judge(c, col):
                 col.fail(rec, c)
     if k == 0:
+        col.exhaustive_parts.append('%d trailers (terminators, blanks, comments) after the same-tail family and %s rejected '
+                                    'corpus statement, whole and cut before the last token; %d statements rejected by a '
+                                    'grammar action in 4 layouts; %d heads with non-ASCII characters x %d erroneous tails '
+                                    'x 4 separators x 2 endings' % (len(TRAILS), 'every 3rd' if tier == 'quick' else 'every',
+                                                                    len(_S['action_rejected']), len(WIDE_HEADS), len(WIDE_TAILS)))
         col.exhaustive_parts.append('%d statements rejected by a grammar action x %d following tokens; the rejected '
                                     'corpus statements and the same-tail family x 3 illegal endings'
                                     % (len(_S['action_rejected']), len(AFTER_REJECTED)))
